@@ -222,9 +222,20 @@ def maxAdvance (cfg : Cfg) (s : State) (p : Sid) (c : TT) : Nat :=
 def prune (cfg : Cfg) (s : State) : State :=
   let lastTime (p : Sid) : Int := match (s.sims p).last with | some t => (TT.time t : Int) | .none => -1
   let minT := (List.range cfg.n).foldl (fun m p => min m (lastTime p)) (lastTime 0)
+  -- the largest time shift of a cached connection out of `q`
+  let maxShift (q : Sid) : Int := (List.range cfg.n).foldl (fun m d =>
+      (cfg.sim d).pulled.foldl (fun m (e : Sid × TI × Port × Port) =>
+        if e.1 = q then max m (tier e.2.1.tiers 0 : Int) else m) m) 0
   { s with sims := fun q =>
       let x := s.sims q
-      if q < cfg.n then { x with outputs := x.outputs.filter (fun e => decide (e.1 ≥ minT)) } else x }
+      if q < cfg.n then
+        let needed : Int := minT - maxShift q
+        -- the newest entry at or before `needed` is still read by steps up to the next entry
+        let keepFrom : Int := match x.outputs.filter (fun (e : Int × OutData) => decide (e.1 ≤ needed)) with
+          | [] => needed
+          | e :: es => es.foldl (fun (m : Int) (e' : Int × OutData) => max m e'.1) e.1
+        { x with outputs := x.outputs.filter (fun (e : Int × OutData) => decide (e.1 ≥ keepFrom)) }
+      else x }
 
 /-! ### the atomic blocks -/
 
